@@ -280,6 +280,12 @@ fn program(case: &[i128]) -> Option<Prog> {
             3 => lens_fn("x", &format!("&'a mut [[u8; {}]]", k), true, &format!("(GenericArray::<u8, {}>::from_chunks_mut(x),)", uint(n))),
             4 => lens_fn("x", &format!("&'a [{}]", a_n), true, &format!("let r: &[[u8; {}]] = GenericArray::into_chunks(x); (r,)", k)),
             5 => lens_fn("x", &format!("&'a mut [{}]", a_n), true, &format!("let r: &mut [[u8; {}]] = GenericArray::into_chunks_mut(x); (r,)", k)),
+            // 6..9: the four chunk reinterpretations called from code generic over `const U: usize` that states only the
+            // published bound `Const<U>: IntoArrayLength`
+            6 => lens_fn("x", &format!("&'a [[u8; {}]]", k), true, &format!("fn g<'b, T, const U: usize>(x: &'b [[T; U]]) -> &'b [GenericArray<T, generic_array::ConstArrayLength<U>>] where Const<U>: IntoArrayLength {{ GenericArray::from_chunks(x) }} let r: &'a [{}] = g(x); (r,)", a_n)),
+            7 => lens_fn("x", &format!("&'a mut [[u8; {}]]", k), true, &format!("fn g<'b, T, const U: usize>(x: &'b mut [[T; U]]) -> &'b mut [GenericArray<T, generic_array::ConstArrayLength<U>>] where Const<U>: IntoArrayLength {{ GenericArray::from_chunks_mut(x) }} let r: &'a mut [{}] = g(x); (r,)", a_n)),
+            8 => lens_fn("x", &format!("&'a [{}]", a_n), true, &format!("fn g<'b, T, const U: usize>(x: &'b [GenericArray<T, generic_array::ConstArrayLength<U>>]) -> &'b [[T; U]] where Const<U>: IntoArrayLength {{ GenericArray::into_chunks(x) }} let r: &[[u8; {}]] = g(x); (r,)", k)),
+            9 => lens_fn("x", &format!("&'a mut [{}]", a_n), true, &format!("fn g<'b, T, const U: usize>(x: &'b mut [GenericArray<T, generic_array::ConstArrayLength<U>>]) -> &'b mut [[T; U]] where Const<U>: IntoArrayLength {{ GenericArray::into_chunks_mut(x) }} let r: &mut [[u8; {}]] = g(x); (r,)", k)),
             _ => return None,
         },
         11 => match v {
@@ -522,6 +528,10 @@ fn cases(tier: &str, rng: &mut Rng) -> Vec<Vec<i128>> {
             for u in 0..=au {
                 if th || v < 2 || n + u == 2 {
                     push(10, v, n, u, -1, 0);
+                    if v >= 2 {
+                        // the chunk reinterpretations from a caller generic over the const length
+                        push(10, v + 4, n, u, -1, 0);
+                    }
                 }
                 if (th && n <= 3 && u <= 4) || (!th && (v == 0 || v == 4) && u <= 1) || (!th && n + u == 2) {
                     push(11, v, n, u, -1, 0);
